@@ -770,11 +770,12 @@ pub fn run_batch(seed: u64, start: u64, count: u64, tier: &str, budget_ms: u64, 
         }
         for f in found {
             let key = class_of(&f.judged);
-            if !sum.class_first(&key) {
+            if !sum.class_first(&key) || sum.violations.len() >= 12 {
                 continue;
             }
-            // minimise the first representative of each class
-            let (mplan, mfound) = minimise(&plan, &f.judged, tier, 40);
+            // minimise the first representatives (bounded: a broken tree can produce many classes)
+            let over_budget = budget_ms > 0 && (simlibc::real_now_ns() - t0) / 1_000_000 > budget_ms;
+            let (mplan, mfound) = if sum.violations.len() < 4 && !over_budget { minimise(&plan, &f.judged, tier, 30) } else { (plan.clone(), None) };
             let (rp, rf, minimised) = match mfound {
                 Some(mf) => (mplan, mf, true),
                 None => (plan.clone(), Found { spec: f.spec.clone(), judged: Judged { clause: f.judged.clause.clone(), message: f.judged.message.clone(), facts: f.judged.facts.clone() } }, false),
